@@ -10464,7 +10464,10 @@ func (l *Lowerer) resolveParameterizedType(t *parser.NamedType) (ir.TypeHandle, 
 		if !ok {
 			return 0, fmt.Errorf("scalar type handle %d not found in registry", scalarType)
 		}
-		scalar := typ.Inner.(ir.ScalarType)
+		scalar, ok := typ.Inner.(ir.ScalarType)
+		if !ok {
+			return 0, fmt.Errorf("%s: component type must be a scalar", t.Name)
+		}
 		return l.registerType("", ir.VectorType{
 			Size:   ir.VectorSize(size),
 			Scalar: scalar,
@@ -10485,7 +10488,10 @@ func (l *Lowerer) resolveParameterizedType(t *parser.NamedType) (ir.TypeHandle, 
 		if !ok {
 			return 0, fmt.Errorf("scalar type handle %d not found in registry", scalarType)
 		}
-		scalar := typ.Inner.(ir.ScalarType)
+		scalar, ok := typ.Inner.(ir.ScalarType)
+		if !ok {
+			return 0, fmt.Errorf("%s: component type must be a scalar", t.Name)
+		}
 		return l.registerType("", ir.MatrixType{
 			Columns: ir.VectorSize(cols),
 			Rows:    ir.VectorSize(rows),
